@@ -341,7 +341,7 @@ FamD(n) ==
 (* X: ARBITRARY finite contours (repeated points, self-intersections, zero    *)
 (* area, clockwise outers, overlapping pairs): only termination and "indices  *)
 (* are input indices" are demanded of these, unless the set happens to be     *)
-(* valid (Case.valid is computed by EpsValidSet)                              *)
+(* epsilon-valid (Case.valid is computed by InputOK)                          *)
 FamX(n) ==
   LET P == PtsIn(0, 0, 2, 2)  Q == PtsIn(0, 0, 1, 1) IN
   UNION { { <<c>> : c \in [1..m -> P] } : m \in 3..n }
@@ -381,7 +381,8 @@ CanClose(q) ==
   /\ \E i \in 1..n : q[i][2] = 0
   /\ Area2(q) > 0
 
-InputOK(ps) == IF Family = "D" THEN EpsValidWithDups(ps) ELSE EpsValidSet(ps)
+(* D and X contain repeated vertices: epsilon-valid iff valid without the repetitions *)
+InputOK(ps) == IF Family \in {"D", "X"} THEN EpsValidWithDups(ps) ELSE EpsValidSet(ps)
 Case(ps) ==
   LET ip == Indexed(ps) IN
   [fam |-> Family, polys |-> ip, valid |-> (Family # "X" \/ InputOK(ps)),
